@@ -686,6 +686,8 @@ class Forcing(BaseForce):
         i0 = self.grid.i0
         j0 = self.grid.j0
         # K, A = z2s(self.grid.z_r, X - i0, Y - j0, Z)
+        if len(self.K) != len(X):  # Dead particles were removed after update()
+            self.K, self.A = z2s(self.grid.z_r, X - i0, Y - j0, Z)
         if fractional_step < 0.001:
             U = self.fields["u"]
             V = self.fields["v"]
